@@ -1094,7 +1094,7 @@ pub fn run(cx: &mut Ctx) {
         cx.check(
             "cli-batches",
             "one JSON array of 1-120 numbers per case (i64 digits, shortest spellings of generated doubles, generated literals; finite only) written to a .json file and run through `jq -c .`, `jq -c 'map(.+0)'`, `jq -c 'map(.*1)'`, `yq -o json -I0 .` (auto and -p yaml), `yq .` (auto and -p yaml), `yq 'map(.*1)'`, `yq -o json 'map(.*1)'`, `yq -o json 'map(.+0)'`; JSON output read with O-jsonval, YAML output with the core-schema line reader; every number must read back as its source double and pass-through i64 must print digit for digit",
-            Budget { quick: 60, thorough: 3_000, max_len: 8192 },
+            Budget { quick: 40, thorough: 2_000, max_len: 8192 },
             |u, st| {
                 let items = gen_cli_items(u, st);
                 st.class_if(items.iter().any(|i| i.exact.is_some()), "has-i64");
